@@ -12,9 +12,12 @@ Modes
   delivered, in delivery order); output: the model's transcript in the format of `impl_paxos`.
 * `judge-inst <prefix>` — body: `proposed v` / `rep node v|-` / `fut id v` lines.
 * `mpaxos <flex> <n> <q1> <q2>` — Multi-Paxos / Flexible Paxos schedule replay (phase 1 uses q1, commit uses q2).
-* `judge-log <prefix> <n> <q1> <q2> <acks|strict>` — body: `sub` / `com` / `fut` lines plus the quorum
-  observations `prop` / `acc` / `ack` / `prom` (`Spec.LogObs`); the commit rule and the phase-1 rule are
-  judged first (their signatures are independent of the per-slot agreement signatures).
+* `judge-log <prefix> <n> <q1> <q2> <acks|strict>` — body: `sub` / `com` / `fut` lines plus the
+  observations `prop` / `acc` / `ack` / `prom` / `pled` / `asg` / `pcar` (`Spec.LogObs`); the commit rule, the
+  phase-1 rule and the deposed-leader rule are judged first (their signatures are independent of the per-slot
+  agreement signatures, whose two-values clause names its trigger from the same observations).
+* `judge-election [identical-static|mixed]` (were all nodes given the same member set, with no `add_member` later) — body: `rep node term leader` (reports) and `st node lhb|other hterm t0 l0 t1 l1` (one per
+  handler invocation); the per-node rules (stale heartbeat, leader swapped inside a term) are judged first.
 -/
 namespace HappyModel.C12.Driver
 open HappyModel.Proto HappyModel.C12
@@ -311,10 +314,25 @@ def runElection (strat : String) (body : List String) : List String :=
         (s!"step {k} {l}" :: elNodeLine r.1 i :: r.2.map showElMsg) ++ go r.1 (k + 1) (if used then dk + 1 else dk) ls
   go { strat := st, nodes := mem.map fun m => { members := m } } 0 0 sched
 
-def judgeElectionBlock (body : List String) : List String :=
+def judgeElectionBlock (uniform : Bool) (body : List String) : List String :=
   let rs : List (Nat × Nat × Nat) := body.filterMap fun l =>
     match toks l with | ["rep", nd, t, ld] => some (natD nd, natD t, natD ld) | _ => none
-  match Spec.judgeElection rs with
+  let showOL : Option Nat → String := fun | some l => toString l | none => "-"
+  let steps : List Spec.ElStep := body.filterMap fun l =>
+    match toks l with
+    | ["st", nd, kind, ht, t0, l0, t1, l1] =>
+      some { node := natD nd, isHb := kind == "lhb", hterm := natD ht, t0 := natD t0, l0 := nat? l0, t1 := natD t1, l1 := nat? l1 }
+    | _ => none
+  match Spec.judgeElSteps steps with
+  | some sig =>
+    let bad := steps.find? fun o => !Spec.staleHbOk o || !Spec.withinTermOk o
+    let det := match bad with
+      | some o => s!" node {o.node} term {o.t0}->{o.t1} leader {showOL o.l0}->{showOL o.l1}" ++
+                  (if o.isHb then s!" on a heartbeat stamped term {o.hterm}" else "")
+      | none => ""
+    [s!"viol {sig}{det}"]
+  | none =>
+  match Spec.judgeElectionV uniform rs with
   | none => ["ok"]
   | some sig => [s!"viol {sig}"]
 
@@ -330,6 +348,9 @@ def parseLogObs (n : Nat) (body : List String) : List Spec.LogObs :=
     | ["ack", p, slot, ci0, ci1, b, cmd] =>
       some (.ack (natD p) (natD slot) (natD ci0) (natD ci1) (parseB n b) (natD cmd))
     | ["prom", p, bn, l0, l1] => some (.prom (natD p) (natD bn) (l0 == "1") (l1 == "1"))
+    | ["pled", p, b, l1] => some (.pled (natD p) (parseB n b) (l1 == "1"))
+    | ["asg", p, slot] => some (.asg (natD p) (natD slot))
+    | ["pcar", d, b, slot, cmd] => some (.pcar (natD d) (parseB n b) (natD slot) (natD cmd))
     | _ => none
 
 /-- detail for a commit-rule violation: the first `ack` observation that is a commit by the leader
@@ -352,6 +373,19 @@ def firstBadLeader (q1 : Nat) : List Spec.LogObs → List Spec.LogObs → String
     | true, .prom p bn _ _ => s!"node {p} ballot-number {bn} responses {Spec.promCnt hist p bn + 1} q1 {q1}"
     | _, _ => firstBadLeader q1 (o :: hist) rest
 
+/-- detail for a deposed-leader violation -/
+def firstBadDeposed (n q1 : Nat) : List Spec.LogObs → List Spec.LogObs → String
+  | _, [] => ""
+  | hist, o :: rest =>
+    match !Spec.assignOk q1 hist o, o with
+    | true, .asg p slot => s!"node {p} assigned slot {slot} to a submitted command after promising another node's ballot"
+    | true, .prop p b slot cmd => s!"node {p} sent Accept ballot {showB n b} slot {slot} cmd {cmd} after promising another node's ballot"
+    | _, _ =>
+      match !Spec.promiseClearsOk o, o with
+      | true, .pled p b _ => s!"node {p} is_leader after promising ballot {showB n b}" ++
+          (let r := firstBadDeposed n q1 (o :: hist) rest; if r.isEmpty then "" else " ; " ++ r)
+      | _, _ => firstBadDeposed n q1 (o :: hist) rest
+
 def judgeLogBlock (pfx : String) (n q1 q2 : Nat) (strict : Bool) (body : List String) : List String :=
   let obs := parseLogObs n body
   match Spec.judgeCommit pfx q2 strict obs with
@@ -359,6 +393,9 @@ def judgeLogBlock (pfx : String) (n q1 q2 : Nat) (strict : Bool) (body : List St
   | none =>
   match Spec.judgeLeader pfx q1 obs with
   | some sig => [s!"viol {sig} {firstBadLeader q1 [] obs}"]
+  | none =>
+  match Spec.judgeDeposed pfx q1 obs with
+  | some sig => [s!"viol {sig} {firstBadDeposed n q1 [] obs}"]
   | none =>
   let subs : List (Nat × Nat) := body.filterMap fun l =>
     match toks l with | ["sub", f, c] => some (natD f, natD c) | _ => none
@@ -373,7 +410,7 @@ def judgeLogBlock (pfx : String) (n q1 q2 : Nat) (strict : Bool) (body : List St
       { proposed := subs.map (·.2),
         reports := coms.map fun c => (c.1, c.2[k - 1]?),
         futs := (futs.filter (·.2.1 == k)).map fun f => (f.1, f.2.2) }
-    (Spec.judgeInst pfx inst).map fun sig => s!"{sig} slot {k}"
+    (Spec.judgeSlot pfx obs k inst).map fun sig => s!"{sig} slot {k}"
   match bad with
   | some sig => [s!"viol {sig}"]
   | none =>
@@ -395,7 +432,8 @@ def handle (hdr : List String) (body : List String) : List String :=
   | ["judge-log", pfx] => judgeLogBlock pfx 0 0 0 false body
   | ["judge-log", pfx, n, q1, q2, mode] => judgeLogBlock pfx (natD n) (natD q1) (natD q2) (mode == "strict") body
   | ["election", strat] => runElection strat body
-  | ["judge-election"] => judgeElectionBlock body
+  | ["judge-election"] => judgeElectionBlock false body
+  | ["judge-election", views] => judgeElectionBlock (views == "identical-static") body
   | ["judge-lock"] => judgeLockBlock body
   | _ => ["bad-mode"]
 
